@@ -45,9 +45,18 @@ func judgeTable(c *Ctx) {
 		if len(fam) > 0 && len(fam[0]) > 0 {
 			famName = fam[0][0]
 		}
+		famStem := ""
 		for si, step := range fam {
 			stepVer := ""
 			for _, id := range step {
+				if st0, _, _, ok0 := gen.Stem(id); ok0 {
+					// one family = one license series: every entry carries the same text stem
+					if famStem == "" {
+						famStem = st0
+					} else if st0 != famStem {
+						c.Violation("mixed-family:"+famName+":"+id, "C11.table", tc, "family %s (stem %s) contains %q, an id of another license series (stem %s): '+' would reach across families", famName, famStem, id, st0)
+					}
+				}
 				if strings.HasSuffix(id, "-or-later") {
 					c.Inc("table_or_later_rows_exempt")
 					continue
@@ -153,10 +162,14 @@ func judgeCross(c *Ctx, a, b string, r *gen.Rand) {
 	if a == b || gen.StripLater(a) == gen.StripLater(b) {
 		return
 	}
-	// same family? then judgePlus handles it
+	// same family and same license series? then judgePlus handles it. Ids of different series (text stems)
+	// are different families whatever the table says, and must not match.
+	sa, _, _, okA := gen.Stem(a)
+	sb, _, _, okB := gen.Stem(b)
+	sameStem := !okA || !okB || sa == sb
 	for _, pa := range u.TablePos(a) {
 		for _, pb := range u.TablePos(b) {
-			if pa.Family == pb.Family {
+			if pa.Family == pb.Family && sameStem {
 				return
 			}
 		}
